@@ -43,7 +43,13 @@ Definition selected_columns (rows cols : nat) (wells : list string) : nat :=
 
 (* ------------------------------------------------------------------ Aspirate / Dispense commands *)
 
-Inductive cmdvol := CVScalar (x : pvol) | CVList (l : list pvol) | CVOther.
+(** the volume argument: a scalar, a list, or anything else.  A list consisting ONLY of Python ints is
+    [CVIntList]: numpy keeps such an array integer, [np.round(.., 2)] leaves it integer and the command text
+    shows plain integers ("5" where a float list shows "5.0"); every check and the labware tracking see the
+    same numbers as for the float list [int_pvols l].  A list with at least one float is a [CVList]. *)
+Inductive cmdvol := CVScalar (x : pvol) | CVList (l : list pvol) | CVIntList (l : list Z) | CVOther.
+
+Definition int_pvols (l : list Z) : list pvol := map (fun z => PV (XQ (inject_Z z))) l.
 
 Record cmdargs := {
   c_wells : arr string;
@@ -104,6 +110,18 @@ Fixpoint tip_slots (tipvs : list Z) (given : list Z) (vols : list Q) : string :=
         end
       else "0," ++ tip_slots rest given vols
   end.
+(** the same for an all-int volume list: the ints are printed as they are *)
+Fixpoint tip_slots_int (tipvs : list Z) (given : list Z) (vols : list Z) : string :=
+  match tipvs with
+  | [] => ""
+  | t :: rest =>
+      if existsb (Z.eqb t) given then
+        match vols with
+        | v :: vr => """" ++ decZ v ++ """," ++ tip_slots_int rest given vr
+        | [] => "<IndexError>"
+        end
+      else "0," ++ tip_slots_int rest given vols
+  end.
 Definition eight : list Z := [1; 2; 4; 8; 16; 32; 64; 128]%Z.
 Fixpoint slots_ok (tipvs : list Z) (given : list Z) (nvols : nat) : bool :=
   match tipvs with
@@ -125,6 +143,10 @@ Definition evo_command (kind : string) (n_rows n_cols : nat) (a : cmdargs) (max_
                                 | Err e => Err e
                                 | Ok qs => if (length qs =? length wells)%nat then Ok qs else Err EReject
                                 end
+                  | CVIntList l => match check_volumes (int_pvols l) max_volume with
+                                   | Err e => Err e
+                                   | Ok qs => if (length qs =? length wells)%nat then Ok qs else Err EReject
+                                   end
                   | CVScalar v => match check_volume v (Some max_volume) with
                                   | Err e => Err e
                                   | Ok q => Ok (repeat q (length wells))
@@ -144,7 +166,10 @@ Definition evo_command (kind : string) (n_rows n_cols : nat) (a : cmdargs) (max_
               | Some sel =>
                   if (2 <=? selected_columns n_rows n_cols wells)%nat then Err EReject else
                   Ok ("B;" ++ kind ++ "(" ++ decZ (fold_right Z.add 0%Z tvs) ++ ",""" ++ lc ++ ""","
-                      ++ tip_slots eight tvs qs ++ "0,0,0,0," ++ decZ grid ++ "," ++ decZ (site - 1)
+                      ++ match c_volume a with
+                         | CVIntList l => tip_slots_int eight tvs l
+                         | _ => tip_slots eight tvs qs
+                         end ++ "0,0,0,0," ++ decZ grid ++ "," ++ decZ (site - 1)
                       ++ ",1,""" ++ evo_get_selection n_rows n_cols sel ++ """,0," ++ decZ (c_arm a) ++ ");")
               end
           | _, _ => Err EReject
@@ -158,6 +183,7 @@ Definition evo_vols (v : cmdvol) : arr xnum :=
   match v with
   | CVScalar (PV x) => A0 x
   | CVList l => A1 (map (fun p => match p with PV x => x | PVBad => XNaN end) l)
+  | CVIntList l => A1 (map (fun p => match p with PV x => x | PVBad => XNaN end) (int_pvols l))
   | _ => A0 XNaN
   end.
 
